@@ -3,6 +3,10 @@
 import json, os, subprocess
 CLAIMED = {
  # id: (level text, level_note, design_ref)
+ "C11": ("Proof (WP over go/ssa + SMT), for all inputs, of the shard routing kernels in meta: group time predicates (Contains/Overlaps/Deleted/Truncated), hash shard choice (ShardFor), range shard choice (DestShard: first containing shard, nil iff none), group lookup by timestamp (live, right engine, contains t; nil iff none), and completeness of ShardGroupsByTimeRange (every live overlapping group is returned), plus the lemma contains => overlaps.",
+         "Not decided: byte equality of write-side and read-side shard keys, getConditionTags/TargetShards pruning (in progress), coordinator routing. Library models for time.Time (ns as mathematical Int).", "DESIGN.md §5 C11"),
+ "C14": ("Proof (WP over go/ssa + SMT) of every expiry predicate for all clock readings/durations (shard.IsExpired, IsTierExpired, nilShardIsExpired == dur!=0 && end+dur<now), the guard obligations of ExpiredShards (an identifier is appended only after the expiry test of the same shard answered true), the retention service protocol (deletion pass only after both duration refreshes returned nil in the same tick; deletes/prunes only ids reported expired), and the catalogue side (ExpiredShardGroups reports only live groups with end+Duration<t; duration validation).",
+         "Not decided: liveness (eventually removed), deletion on disk, DeleteShardOrIndex goroutine; interface method frames (Shard.IsExpired/GetIdent) assumed; time.Now modelled as an arbitrary monotone clock.", "DESIGN.md §5 C14"),
  "C20": ("Proof (WP over go/ssa + SMT) for all inputs/paths of the listed contracts on the real sparseindex code: three-valued mark algebra and its covering lemmas, range intersect/contain soundness against the abstract key order, and the accumulation over the hyper-rectangle decomposition (no examined box that may match is lost). Not an end-to-end proof of pruning soundness.",
          "Trusted: FieldRef.Less/Equals implement a total order (trusted_ensures), record.ColVal accessors are read-only, callBack is an arbitrary function value; bloom-filter skip indexes and binary/exclusion search loops not covered; sequential semantics.", "DESIGN.md §5 C20"),
 }
